@@ -289,8 +289,17 @@ def check_v4(ctx, w):
     ctx.ob('W-V4', f.construct, 'raw v5 list parsed at the offset', ops == [('parse', 'stream', 'Dwarf_rnglists_entries', 'offset')], got=ops)
     for mod, cls, a, b, meth in ((LL, 'LocationListsPair', '_loclists', '_loc', 'get_location_list_at_offset'), (RG, 'RangeListsPair', '_rnglists', '_ranges', 'get_range_list_at_offset')):
         f = w.model.func(mod, cls + '.' + meth)
-        tr = expr.assign_trace(f.node, expr.FEnv(f.node, inline=False))
-        ctx.ob('W-V4', f.construct, 'v5 section iff unit version >= 5', tr.get('section') == [('=', expr.spec_nf('%s if version >= 5 else %s' % (a, b)))], got=tr.get('section'))
+        # which of the pair answers, by unit version, read off the returning paths (a conditional expression, an if statement
+        # or early returns are the same decision): the receiver of the delegated call is the v5 object iff version >= 5
+        fenv = expr.FEnv(f.node)
+        by = {}
+        for conds, out in expr.return_rows(f.node, fenv):
+            by.setdefault(expr.Facts(conds).get(expr.spec_cond('version >= 5')), set()).add(out)
+        flat = dict((k, ' '.join(sorted(v))) for k, v in by.items())
+        ok = set(flat) <= {True, False, None} and \
+            ((True in flat and a in flat[True] and b not in flat[True] and b in flat.get(False, '') and a not in flat.get(False, '')) or
+             (None in flat and expr.spec_nf('%s if version >= 5 else %s' % (a, b)) in flat[None]))
+        ctx.ob('W-V4', f.construct, 'v5 section iff unit version >= 5', ok, got=flat)
 
 
 def check_enum(ctx, w):
